@@ -31,7 +31,7 @@ BOUNDS = {
     "thorough": dict(diagonal_n=[2, 3, 4], lu_n=[2, 3, 4], lu_perms="all (n<=3), 5 of 24 (n=4)", cholesky_n=[2, 3, 4], ldl_n=[2, 3, 4],
                      ldl_perms="all (n<=3), 3 of 24 (n=4)", ldl_block="n=2, n=3 (1+2, 2+1), n=4 (2+2)", qr_n=[2], sparse_lu_n=[2, 3, 4],
                      precond_n=[2, 3, 4], auto_n=[2, 3], auto_overrides=["none", "all", "herm", "sym"], cg_n=2, cg="as quick + maxit 2 complex, recursive branch with identity/Jacobi, block of 2 right-hand sides",
-                     orth="2 and 3 real vectors of length 3 (QR pre-image: all 3 x k matrices; exactly dependent second column for k = 2)", multigrid=["2x2", "4x2", "2x2x2", "4x4", "2x2x4"],
+                     orth="2 real vectors of length 3 (QR pre-image: every real 3 x 2 matrix, exactly / nearly dependent second column included)", multigrid=["2x2", "4x2", "2x2x2", "4x4", "2x2x4"],
                      multigrid_ndof=[1, 2, 3], rhs_shapes=["(n,)", "(n,1)", "(n,2)"], trans=["N", "T", "H"],
                      data=["real", "complex", "real matrix / complex rhs"]),
 }
@@ -40,8 +40,8 @@ OUTSIDE = ["that CG / multigrid converge (iteration counts, conditioning); only 
            "dtype / precision of the returned arrays (only the real/complex content is tracked)",
            "Pardiso / CHOLMOD (scikit-sparse) / cvxopt wrappers (libraries absent in this environment)",
            "SolverDenseQR beyond n = 2 and for non-square matrices",
-           "ILU (inexact by design; spilu is not modelled)", "orth() on complex vectors and on more than 3 vectors (it is executed "
-           "inside CG for single complex columns only)", "GeometricMultigrid.solve (a V-cycle is an approximation by design)",
+           "ILU (inexact by design; spilu is not modelled)", "orth() on complex vectors and on 3 or more vectors (3 vectors: two "
+           "span obligations stayed undecided after 460 s; inside CG it is executed for single columns)", "GeometricMultigrid.solve (a V-cycle is an approximation by design)",
            "inputs on which the code divides by zero (zero pivots, zero diagonal entries, zero right-hand-side or residual "
            "columns in CG/orth): the symbolic run restricts every path to non-zero divisors",
            "matrix sizes beyond the bound, IEEE rounding, the tolerances of np.allclose in the matrix classification "
@@ -1393,8 +1393,7 @@ def items(tier):
         cg("N", "identity", True, 1, 1, "r", False, False, shape="c2")
         cg("N", "jacobi", False, 50, 2, "r", False, False)
         add("orth", "k2-r", k=2)
-        add("orth", "k3-r", k=3)
-        add("orth", "k3-r-flip", k=3, flip=True)
+        add("orth", "k2-r-flip", k=2, flip=True)
     for mesh in b["multigrid"]:
         dims = [int(s) for s in mesh.split("x")] + [0]
         for ndof in b["multigrid_ndof"]:
